@@ -172,9 +172,56 @@ def work_corpus(task):
     return ev
 
 
+# ------------------------------------------------------------------ every rejection site, with a payload
+
+PAYLOADS = ["[1, 2] elem", "(1, 2) \"x%s\"", "{1 2 add}", "if 1 then [2] else \"3\"", "let Q := [1, [2]]; Q", "\"a%( [1] %)b\""]
+ERROR_TEMPLATES = [
+    "let \"x%%s\" := %s;", "let \"x%%( 1 %%)\" := %s;", "let \"ok\" := %s; ok", "let \"a\" \"b\" := %s;", "let \"\" := %s;",
+    "%s (", "%s )", "%s ]", "[%s", "{%s", "%s }", "?(%s", "!(%s", "%s \"abc", "%s \"%%( 1", "%s \"%%( ( %%)\"", "%s \"%%( ) %%)\"",
+    "%s 1x", "%s 99999999999999999999999", "%s 0x", "%s 08", "%s \x01", "let A := %s; let A := 1;", "%s Bb", "%s ||", "|| %s",
+    "if %s then 1", "if %s", "if 1 then %s else", "%s , ,", "let := %s;", "let A B := %s", "let A := %s", "%s \"\\xZZ\"",
+    "%s \"%%q\"", "(|A A| %s)", "{|A| %s} {|", "%s ?{", "%s '", "%s **", "%s \"a\"\\", "%s r\"abc", "%s /* unterminated",
+    "%s \"%%( \"%%( if %%)\" %%)\"", "%s \"%%( 1x %%)", "(%s == )", "(== %s ==)", "%s `", "%s ``[", "%s == == 1", "[|A| %s", "[|A %s]",
+    "let A := 1; {A %s} {|A|", "%s \"%%( let %%)\"", "%s \"%%s%%( 1 %%)%%( ( %%)\"", "?(|A| %s) A", "%s then", "%s else 1", "%s :=", "%s ;",
+]
+
+
+def work_errors(task):
+    lo, hi = task
+    ev = Evidence()
+    drv = Driver()
+    texts = []
+    try:
+        for t in ERROR_TEMPLATES[lo:hi]:
+            batch = []
+            for pl in PAYLOADS:
+                text = t % pl
+                batch.append(text)
+                try:
+                    for fl in (0, 1, 4):
+                        abandon_all(drv, ev, text, "", flags=fl, maxn=2)
+                except DriverCrash as e:
+                    ev.violations.append(crash_record("error-path", text, e.report))
+                except DriverTimeout:
+                    ev.inconc("watchdog")
+            ev.label("error-template")
+            # leak check per template, so that a report names the rejection site
+            if not leak_gate(drv, ev, "rejecting `%s`" % t, batch):
+                ev.violations[-1]["signature"] += ":" + t
+        rc, txt = drv.close()
+        if rc not in (0,):
+            ev.violations.append({"property": PID, "kind": "exit", "reason": "driver exit status %s at orderly shutdown: %s" % (rc, txt[-3000:]),
+                                  "signature": "C13:exit:" + first_repo_frame(txt)})
+    finally:
+        drv.kill()
+    return ev
+
+
 def main(tier, seed):
     t0 = time.time()
     ev = Evidence()
+    ev.merge(run_pool(work_errors, [(lo, lo + 4) for lo in range(0, len(ERROR_TEMPLATES), 4)]))
+    ev.extra["error_templates"] = len(ERROR_TEMPLATES)
     ngen, depth, fuzz_s, fuzz_w = (1600, 3, 45, 12) if tier == "quick" else (40000, 3, 900, 16)
     per = max(50, ngen // 32)
     ev.merge(run_pool(work_gen, [(seed, s, min(per, ngen - s), depth) for s in range(0, ngen, per)]))
